@@ -279,7 +279,8 @@ def witness_scripts(ctx):
 
 def run(ctx):
     rng = ctx.rng
-    prefix = "vf%d_names_that_share_a_long_common_prefix" % os.getpid()      # names differ only in their last characters
+    # names differ only in their last characters - and those come after more than 256 common ones
+    prefix = "vf%d_" % os.getpid() + "names_that_share_a_long_common_prefix_" * 7 + "x"
     ctx.design_must_hold("ipc/SemAbs.tla", expect_actions=["SNew", "SCreateCall", "SCreateReset", "SCreateLin", "SAcqCall", "SAcqLin", "SRelease", "SOwn", "SFree"])
     if not ctx.quick:
         ctx.design_must_hold("ipc/SemProto.tla", cfg="SemProto_fixed.cfg", coverage=False, workers=16, xmx="8g", timeout=1800)
